@@ -2,9 +2,9 @@
 # C12: --no-copy decides what the transform command gets as $IN (the original path or a temporary
 # copy with a random name), but it is not part of the identity of the hash cache.
 # usage: repro_3.sh <checkout>   (uses <checkout>/target/debug/fclones, builds nothing)
-CHECKOUT=${1:-/tmp/hunt/n1}
+CHECKOUT=${1:-/repo}
 F=$CHECKOUT/target/debug/fclones
-[ -x "$F" ] || F=/tmp/hunt/n1/target/debug/fclones
+[ -x "$F" ] || F=${1:-/repo}/target/debug/fclones
 D=$(mktemp -d)
 trap 'rm -rf "$D"' EXIT
 export XDG_CACHE_HOME=$D/cache          # private hash cache
